@@ -221,8 +221,26 @@ package snaps
 //@
 //@ func getUnifiedDiff(a, b) returns (r, inserted, deleted)
 //@   mode lines
+//@   option paths-in-loops
+//@   requires dmp != nil
 //@   assigns alloc, nDelPrinted, nInsPrinted
 //@   ensures [nonempty] a != b ==> r != ""
+//@   ensures [counts] colors.NOCOLOR ==> deleted == nDelPrinted - old(nDelPrinted) && inserted == nInsPrinted - old(nInsPrinted)
+//@   let S = wbuf[s]
+//@   let base = s != nil && !old(alloc)[s] && (forall r Ref: old(alloc)[r] ==> wbuf[r] == old(wbuf)[r])
+//@        && (colors.NOCOLOR ==> deleted == nDelPrinted - old(nDelPrinted) && inserted == nInsPrinted - old(nInsPrinted))
+//@        && len(aLines) == nl(a) && (forall i in 0..nl(a): aLines[i] == seg(a, i) + "\n") && len(bLines) == nl(b) && (forall i in 0..nl(b): bLines[i] == seg(b, i) + "\n")
+//@   let outerSeen = (exists g0 in 0..$idx_1: exists c0 in 0..len($range_1[g0]): !sameR(aLines, bLines, $range_1[g0][c0])) ==> len(S) > 0
+//@   let innerSeen = (exists c0 in 0..$idx_1_1: !sameR(aLines, bLines, g[c0])) ==> len(S) > 0
+//@   loop 1 invariant base && 0 <= $idx_1 && $idx_1 <= len($range_1) && groupsOK(aLines, bLines, $range_1) && outerSeen
+//@   loop 1.1 invariant base && 0 <= $idx_1 && $idx_1 < len($range_1) && groupsOK(aLines, bLines, $range_1) && outerSeen && g == $range_1[$idx_1]
+//@   loop 1.1 invariant 0 <= $idx_1_1 && $idx_1_1 <= len(g) && innerSeen
+//@   loop 1.1.1 invariant base && 0 <= $idx_1 && $idx_1 < len($range_1) && groupsOK(aLines, bLines, $range_1) && outerSeen && g == $range_1[$idx_1] && 0 <= $idx_1_1 && $idx_1_1 < len(g) && innerSeen
+//@   loop 1.1.2 invariant base && 0 <= $idx_1 && $idx_1 < len($range_1) && groupsOK(aLines, bLines, $range_1) && outerSeen && g == $range_1[$idx_1] && 0 <= $idx_1_1 && $idx_1_1 < len(g) && innerSeen
+//@   loop 1.1.2 invariant $idx > 0 ==> len(S) > 0
+//@   loop 1.1.3 invariant base && 0 <= $idx_1 && $idx_1 < len($range_1) && groupsOK(aLines, bLines, $range_1) && outerSeen && g == $range_1[$idx_1] && 0 <= $idx_1_1 && $idx_1_1 < len(g) && innerSeen
+//@   loop 1.1.3 invariant $idx > 0 ==> len(S) > 0
+//@   loop 1.1.3 invariant (fallback || c.Tag == 2) && c.I1 < c.I2 ==> len(S) > 0
 //@
 //@ func prettyDiff(expected, received, name, line) returns (r)
 //@   mode ctl
